@@ -1019,6 +1019,14 @@ func (w *lcWorld) stepManual(i int, st *lcStep) {
 		if r := w.peerCloseStream(st.S - 1); r != "" {
 			w.res.Harness = "PeerCloseStream: " + r
 		}
+	case "PeerOpenNew":
+		// (witness only) the client peer opens one more stream that the server survivor never accepts
+		if ns, err := w.pr.OpenStream(); err == nil {
+			ns.BufferWriter().WriteString("n")
+			ns.Flush(false)
+		} else {
+			w.res.Harness = "PeerOpenNew: " + err.Error()
+		}
 	case "PeerDrain":
 		lcEvents(w.dP)
 	case "PeerDies":
@@ -1369,11 +1377,19 @@ func (w *lcWorld) laterCalls(step int) {
 	})
 	if !w.sv.isClient {
 		run("AcceptStream", func() string {
-			st, err := w.sv.AcceptStream()
-			if err != nil && st == nil {
-				return ""
+			// (Go's select picks at random between acceptCh and shutdownCh: ask several times)
+			for k := 0; k < 8; k++ {
+				queued := len(w.sv.acceptCh)
+				st, err := w.sv.AcceptStream()
+				if err != nil && st == nil {
+					continue
+				}
+				if st != nil && queued > 0 {
+					return fmt.Sprintf("KNOWN:accept-after-close:returned a stream with a nil error (%d streams were still queued in acceptCh when the session was closed)", queued)
+				}
+				return fmt.Sprintf("returned (stream nil=%v, err=%v)", st == nil, err)
 			}
-			return fmt.Sprintf("returned (stream nil=%v, err=%v)", st == nil, err)
+			return ""
 		})
 	}
 	for i := 0; i < w.sc.Streams; i++ {
